@@ -144,6 +144,9 @@ impl ConnectToken {
         let protocol_id = read_u64(src)?;
         let create_timestamp = read_u64(src)?;
         let expire_timestamp = read_u64(src)?;
+        if create_timestamp > expire_timestamp {
+            return Err(NetcodeError::Expired);
+        }
         let xnonce = read_bytes(src)?;
 
         let private_data: [u8; NETCODE_CONNECT_TOKEN_PRIVATE_BYTES] = read_bytes(src)?;
